@@ -31,7 +31,8 @@ def interp_value(ctx, xs, ys, x, left, right):
     return right
 
 
-def interp(ctx, shape, pos, lkind='f', k=1, fills='default', issorted=None, dkind='f', newform='list', qkind='f', axis_by='name', like=False, nan=False):
+def interp(ctx, shape, pos, lkind='f', k=1, fills='default', issorted=None, dkind='f', newform='list', qkind='f', axis_by='name', like=False, nan=False, under=None):
+    ctx.under(under)
     nd = len(shape)
     dims = DIMS[:nd]
     lkinds = ['i', 'U', 'i', 'i'][:nd]
@@ -215,6 +216,9 @@ def templates():
     for via in ('interp_axis-pos', 'like-dimarray', 'like-dataset'):
         for fills in ('default', 'sym'):
             add('dataset-%s-%s' % (via, fills), 'dataset_interp', cost=2, n=2, k=1, fills=fills, via=via)
+    for shape, pos in (([3], 0), ([2, 3], 1)):
+        add('under-position-%s' % 'x'.join(map(str, shape)), 'interp', cost=3, shape=shape, pos=pos, k=1, lkind='i', under={'indexing.by': 'position'})
+    add('under-position-like', 'interp', cost=3, shape=[3], pos=0, k=1, lkind='i', like=True, under={'indexing.by': 'position'})
     add('like-1d', 'interp', cost=1, shape=[3], pos=0, k=2, like=True)
     add('like-2d', 'interp', cost=2, shape=[2, 3], pos=1, k=2, like=True, fills='sym')
     return ts
